@@ -588,10 +588,16 @@ type instance struct {
 	sm *sinkM
 }
 
+// leaveEncryptAllDefault: in list mode, leave encrypt_all at its default (true) as a configuration file that only
+// names encrypt_attributes does; a non-empty list takes precedence over encrypt_all (factory.go, makeEncryptList).
+var leaveEncryptAllDefault atomic.Bool
+
 func newInstance(sig int, all bool, list []string) (*instance, error) {
 	f := obfp.NewFactory()
 	cfg := f.CreateDefaultConfig().(*obfp.Config)
-	cfg.EncryptAll = all
+	if !(len(list) > 0 && leaveEncryptAllDefault.Load()) {
+		cfg.EncryptAll = all
+	}
 	cfg.EncryptAttributes = list
 	set := processortest.NewNopSettings(f.Type())
 	in := &instance{sig: sig, all: all && len(list) == 0, listed: map[string]bool{}, table: NewTable()}
@@ -824,7 +830,14 @@ func TestC17(t *testing.T) {
 				list = []string{"never-present"}
 			}
 		}
+		// every other list-mode instance is configured the way a file naming only encrypt_attributes is:
+		// encrypt_all stays at its default (true) and the list takes precedence
+		leaveEncryptAllDefault.Store(modeIdx > 0 && (c.Idx/9)%2 == 0)
 		in, err := newInstance(sig, modeIdx == 0, list)
+		leaveEncryptAllDefault.Store(false)
+		if modeIdx > 0 && (c.Idx/9)%2 == 0 {
+			c.Count("list_mode_instances_with_encrypt_all_left_at_default", 1)
+		}
 		if err != nil {
 			c.Inconclusive(err.Error())
 			return
@@ -888,11 +901,6 @@ func TestC17(t *testing.T) {
 				list = []string{"never-present"}
 			}
 		}
-		in, err := newInstance(sig, mode == 0, list)
-		if err != nil {
-			c.Inconclusive(err.Error())
-			return
-		}
 		const nDocs, nG, reps = 12, 8, 6
 		type doc struct {
 			t ptrace.Traces
@@ -911,55 +919,90 @@ func TestC17(t *testing.T) {
 				docs[i].m = g.Metrics(6, nil)
 			}
 		}
-		run := func(d doc, sk *collector) []byte {
-			switch sig {
-			case 0:
-				cp := ptrace.NewTraces()
-				d.t.CopyTo(cp)
-				_ = in.tp.ConsumeTraces(sk.ctx(), cp)
-			case 1:
-				cp := plog.NewLogs()
-				d.l.CopyTo(cp)
-				_ = in.lp.ConsumeLogs(sk.ctx(), cp)
-			default:
-				cp := pmetric.NewMetrics()
-				d.m.CopyTo(cp)
-				_ = in.mp.ConsumeMetrics(sk.ctx(), cp)
+		// odd cases: FIRST USE of fresh instances is concurrent (nothing initialised by an earlier sequential
+		// call); the instance's sequential output is computed afterwards and every concurrent output must equal
+		// it (the substitute depends only on the original for the lifetime of the instance). Several fresh
+		// instances per case. Even cases: sequential pass first, then the concurrent one.
+		firstUse := c.Idx%2 == 1
+		instances := 1
+		if firstUse {
+			instances = 8
+		}
+		for inst := 0; inst < instances; inst++ {
+			in, err := newInstance(sig, mode == 0, list)
+			if err != nil {
+				c.Inconclusive(err.Error())
+				return
 			}
-			return sk.take()
-		}
-		// the instance's sinks are shared; results are routed back through the context
-		seq := make([][]byte, nDocs)
-		for i := range docs {
-			seq[i] = run(docs[i], newCollector(in))
-		}
-		var wg sync.WaitGroup
-		var diffs atomic.Int64
-		var first atomic.Value
-		start := make(chan struct{})
-		for gi := 0; gi < nG; gi++ {
-			wg.Add(1)
-			go func(gi int) {
-				defer wg.Done()
-				<-start
+			run := func(d doc, sk *collector) []byte {
+				switch sig {
+				case 0:
+					cp := ptrace.NewTraces()
+					d.t.CopyTo(cp)
+					_ = in.tp.ConsumeTraces(sk.ctx(), cp)
+				case 1:
+					cp := plog.NewLogs()
+					d.l.CopyTo(cp)
+					_ = in.lp.ConsumeLogs(sk.ctx(), cp)
+				default:
+					cp := pmetric.NewMetrics()
+					d.m.CopyTo(cp)
+					_ = in.mp.ConsumeMetrics(sk.ctx(), cp)
+				}
+				return sk.take()
+			}
+			// the instance's sinks are shared; results are routed back through the context
+			seq := make([][]byte, nDocs)
+			if !firstUse {
+				for i := range docs {
+					seq[i] = run(docs[i], newCollector(in))
+				}
+			}
+			outs := make([][][]byte, nG)
+			var wg sync.WaitGroup
+			start := make(chan struct{})
+			for gi := 0; gi < nG; gi++ {
+				wg.Add(1)
+				go func(gi int) {
+					defer wg.Done()
+					<-start
+					for rep := 0; rep < reps; rep++ {
+						for i := range docs {
+							k := (i + gi) % nDocs
+							outs[gi] = append(outs[gi], run(docs[k], newCollector(in)))
+						}
+					}
+				}(gi)
+			}
+			close(start)
+			wg.Wait()
+			if firstUse {
+				for i := range docs {
+					seq[i] = run(docs[i], newCollector(in))
+				}
+				c.Count("fresh_instances_whose_first_use_was_concurrent", 1)
+			}
+			diffs, first := 0, ""
+			for gi := 0; gi < nG; gi++ {
+				j := 0
 				for rep := 0; rep < reps; rep++ {
 					for i := range docs {
 						k := (i + gi) % nDocs
-						out := run(docs[k], newCollector(in))
-						if !bytes.Equal(out, seq[k]) {
-							diffs.Add(1)
-							first.CompareAndSwap(nil, fmt.Sprintf("goroutine %d document %d: %d bytes vs %d bytes sequentially", gi, k, len(out), len(seq[k])))
+						if out := outs[gi][j]; !bytes.Equal(out, seq[k]) {
+							diffs++
+							if first == "" {
+								first = fmt.Sprintf("goroutine %d document %d: %d bytes vs %d bytes sequentially", gi, k, len(out), len(seq[k]))
+							}
 						}
+						j++
 					}
 				}
-			}(gi)
-		}
-		close(start)
-		wg.Wait()
-		c.Count("concurrent_calls_compared_with_sequential_output", int64(nG*reps*nDocs))
-		if diffs.Load() > 0 {
-			c.Violation("output for a document differs when the same instance is used concurrently (substitute depends on scheduling)",
-				fmt.Sprintf("%d of %d concurrent calls differ from the instance's own sequential output; first: %v", diffs.Load(), nG*reps*nDocs, first.Load()), map[string]any{"mode_encrypt_all": mode == 0, "listed_keys": fmt.Sprint(list)})
+			}
+			c.Count("concurrent_calls_compared_with_sequential_output", int64(nG*reps*nDocs))
+			if diffs > 0 {
+				c.Violation("output for a document differs when the same instance is used concurrently (substitute depends on scheduling)",
+					fmt.Sprintf("%d of %d concurrent calls differ from the instance's own sequential output (first use concurrent: %v); first: %v", diffs, nG*reps*nDocs, firstUse, first), map[string]any{"mode_encrypt_all": mode == 0, "listed_keys": fmt.Sprint(list), "first_use_concurrent": firstUse})
+			}
 		}
 		c.FP("concurrent", fmt.Sprint(sig), fmt.Sprint(mode), fmt.Sprint(c.Idx))
 		c.Nontrivial(true)
